@@ -374,6 +374,7 @@ package document
 //@ ensures err == nil ==> forall r int :: row < r && r < len(t.Rows) && col < len(t.Rows[r].Cells) ==> t.Rows[r].Cells[col].Properties == old(t.Rows[r].Cells[col].Properties) && t.Rows[r].Cells[col].Tables == old(t.Rows[r].Cells[col].Tables) && (t.Rows[r].Cells[col].Paragraphs == old(t.Rows[r].Cells[col].Paragraphs) || (old(len(t.Rows[r].Cells[col].Paragraphs)) == 0 && len(t.Rows[r].Cells[col].Paragraphs) == 1))
 //@ ensures err == nil ==> forall r int, c int :: 0 <= r && r < len(t.Rows) && r != row && 0 <= c && c < len(t.Rows[r].Cells) && (c != col || r < row) && t.Rows[r].Cells[c].Properties != nil ==> t.Rows[r].Cells[c].Properties.VMerge == old(t.Rows[r].Cells[c].Properties.VMerge)
 //@ ensures err == nil ==> forall r int :: row < r && r < len(t.Rows) && col < len(t.Rows[r].Cells) && t.Rows[r].Cells[col].Properties != nil ==> t.Rows[r].Cells[col].Properties.VMerge == nil || t.Rows[r].Cells[col].Properties.VMerge == old(t.Rows[r].Cells[col].Properties.VMerge)
+//@ ensures err == nil && old(rowPropsOwn(t)) ==> rowPropsOwn(t)
 //@ loop 1
 //@   invariant 1 <= i && (i <= old(spanOf(t.Rows[row].Cells[col].Properties)) || i == 1)
 //@   invariant 0 <= row && row < len(t.Rows) && 0 <= col && col < old(len(t.Rows[row].Cells))
